@@ -126,7 +126,9 @@ def handleImpl (ds : DState) (op : String) (args impl : List String) : Option (D
     | "sdim", _ :: _ :: f :: _ => s!"sdim.{f}"
     | "del", k :: _ => s!"del.{k}"
     | _, _ => op
-  let note (st : StoreSt) : StoreSt := if readOnlyOps.contains op then st else { st with sinceDump := st.sinceDump ++ [(desc, ok)], lastDeleted := none }
+  -- a mutation that the library carried out invalidates what was seen through handles before it
+  let note (st : StoreSt) : StoreSt := if readOnlyOps.contains op then st else
+    { st with sinceDump := st.sinceDump ++ [(desc, ok)], lastDeleted := none, linkObs := if sessionOps.contains op then st.linkObs else [] }
   let fin (st : StoreSt) (o : Out) : Option (DState × Out) := some ({ ds with store := st }, o)
   match op with
   | "fopen" | "fclose" | "freopen" | "fflush" | "fdrop" | "fisopen" | "fbytes" =>
@@ -159,7 +161,15 @@ def handleImpl (ds : DState) (op : String) (args impl : List String) : Option (D
     match args, impl with
     | slot :: _, ["ok", id] => fin (if id.length == 36 then bind st slot id else { st with slotIds := st.slotIds.filter (·.1 != slot) }) (.ok s!"getlinkh.{if id.length == 36 then "found" else "none"}")
     | _, _ => fin st (.ok "getlinkh.err")
-  | "has" | "count" | "list" | "drop" | "idof" | "haslink" | "getlink" | "countlink" | "listlink" =>
+  | "countlink" | "listlink" =>
+    -- C02: what a link container shows through a handle (also one that was held across the operations before a close) is what it
+    -- shows after close + reopen, as long as nothing was changed in between
+    let key := " ".intercalate (op :: args)
+    let rules : List (String × Bool) := match st.linkObs.find? (·.1 == key) with
+      | some (_, before) => [("handle_view_of_links_survives_reopen", before == impl)]
+      | none => []
+    fin { st with linkObs := (key, impl) :: st.linkObs.filter (·.1 != key) } (judge s!"{op}.{if ok then "ok" else "err"}" impl impl rules)
+  | "has" | "count" | "list" | "drop" | "idof" | "haslink" | "getlink" =>
     fin st (.ok s!"{op}.{if ok then "ok" else "err"}")
   | "adim" | "sdim" | "ddims" | "da_setext" | "da_fill" | "pvalues" | "pset" | "mkpv" =>
     fin (note st) (.ok s!"{op}.{(args[1]?).getD ""}.{if ok then "ok" else (impl[1]?).getD "err"}")
